@@ -103,7 +103,7 @@ func (w *World) verifyUnit(u *Unit) *Exec {
 	env := &SpecEnv{e: e, fr: fr, st: st, old: fr.entry, vars: fr.params, oldVars: fr.params}
 	if u.FC != nil {
 		for _, c := range u.FC.Requires {
-			e.sc.assume("true", e.specBool(env, c))
+			e.sc.assume("true", e.specBoolA(env, c))
 		}
 	}
 	e.sc.cover("true", u.Name+"#cover.pre", "precondition is satisfiable")
